@@ -85,4 +85,54 @@ PNext == \E p \in Peers :
            \/ TransportFail(p)
 
 PSpec == PInit /\ [][PNext]_psvars
+
+---------------------------------------------------------------------------
+(* Establishment phase (Sta1 - Sta5 of Table 9-10), added for the whole    *)
+(* life cycle; the definitions above are unchanged.  Either peer may       *)
+(* request; the transport connection is opened by TConn (AE-1's connect    *)
+(* request meeting the other side's AE-5).  A-ASSOCIATE-AC carries at      *)
+(* least one accepted presentation context ("AssocAC") or none             *)
+(* ("AssocAC0"); the upper layer does not distinguish them.                *)
+IsAC(m) == m \in {"AssocAC", "AssocAC0"}
+
+PFullInit == /\ sta = [p \in Peers |-> 1]
+             /\ net = [p \in Peers |-> <<>>]
+             /\ up  = [p \in Peers |-> FALSE]
+
+AE1(p)  == sta[p] = 1 /\ ~up[p] /\ To(p, 4) /\ UNCHANGED <<net, up>>            \* A-ASSOCIATE request: connect
+TConn(p) == /\ sta[p] = 4 /\ sta[Oth(p)] = 1 /\ ~up[p] /\ ~up[Oth(p)]            \* connection opens; AE-5 at the acceptor
+            /\ up' = [q \in Peers |-> TRUE] /\ sta' = [sta EXCEPT ![Oth(p)] = 2] /\ UNCHANGED net
+AE2(p)  == sta[p] = 4 /\ up[p] /\ Snd(p, "AssocRQ") /\ To(p, 5) /\ UNCHANGED up    \* confirmation: send A-ASSOCIATE-RQ
+AE3(p)  == sta[p] = 5 /\ up[p] /\ net[p] # <<>> /\ IsAC(Head(net[p])) /\ Pop(p) /\ To(p, 6) /\ UNCHANGED up
+AE4(p)  == sta[p] = 5 /\ Got(p, "AssocRJ") /\ Cls(p) /\ To(p, 1)                  \* rejected: close
+AE6a(p) == sta[p] = 2 /\ Got(p, "AssocRQ") /\ Pop(p) /\ To(p, 3) /\ UNCHANGED up   \* acceptable: indication
+AE6r(p) == /\ sta[p] = 2 /\ Got(p, "AssocRQ")                                     \* not acceptable: reject
+           /\ net' = [net EXCEPT ![p] = Tail(@), ![Oth(p)] = IF up[Oth(p)] THEN Append(@, "AssocRJ") ELSE @]
+           /\ To(p, 13) /\ UNCHANGED up
+AE7(p)  == sta[p] = 3 /\ up[p] /\ \E m \in {"AssocAC", "AssocAC0"} : Snd(p, m) /\ To(p, 6) /\ UNCHANGED up
+AE8(p)  == sta[p] = 3 /\ up[p] /\ Snd(p, "AssocRJ") /\ To(p, 13) /\ UNCHANGED up
+AA1e(p) == sta[p] \in {3, 5} /\ up[p] /\ Snd(p, "Abort") /\ To(p, 13) /\ UNCHANGED up   \* A-ABORT request
+AA2s4(p) == sta[p] = 4 /\ ~up[p] /\ To(p, 1) /\ UNCHANGED <<net, up>>               \* abort while connecting
+(* Sta2: anything but A-ASSOCIATE-RQ / A-ABORT is answered with A-ABORT (AA-1) *)
+AA1s2(p) == /\ sta[p] = 2 /\ up[p] /\ net[p] # <<>> /\ Head(net[p]) \notin {"AssocRQ", "Abort"}
+            /\ net' = [net EXCEPT ![p] = Tail(@), ![Oth(p)] = IF up[Oth(p)] THEN Append(@, "Abort") ELSE @]
+            /\ To(p, 13) /\ UNCHANGED up
+AA2s2(p) == sta[p] = 2 /\ up[p] /\ Cls(p) /\ To(p, 1)            \* A-ABORT PDU received, or ARTIM expired
+AA3e(p) == sta[p] \in {3, 5} /\ Got(p, "Abort") /\ Cls(p) /\ To(p, 1)
+AA4e(p) == sta[p] \in {3, 5} /\ up[p] /\ ~up[Oth(p)] /\ net[p] = <<>> /\ Cls(p) /\ To(p, 1)
+AA5(p)  == sta[p] = 2 /\ up[p] /\ ~up[Oth(p)] /\ net[p] = <<>> /\ Cls(p) /\ To(p, 1)
+AA8e(p) == /\ sta[p] \in {3, 5} /\ up[p] /\ net[p] # <<>>
+           /\ LET m == Head(net[p]) IN
+                \/ sta[p] = 5 /\ ~IsAC(m) /\ m \notin {"AssocRJ", "Abort"}
+                \/ sta[p] = 3 /\ m # "Abort"
+           /\ net' = [net EXCEPT ![p] = Tail(@), ![Oth(p)] = IF up[Oth(p)] THEN Append(@, "Abort") ELSE @]
+           /\ To(p, 13) /\ UNCHANGED up
+
+PEstablishNext == \E p \in Peers :
+           \/ AE1(p) \/ TConn(p) \/ AE2(p) \/ AE3(p) \/ AE4(p) \/ AE6a(p) \/ AE6r(p) \/ AE7(p) \/ AE8(p)
+           \/ AA1e(p) \/ AA2s4(p) \/ AA1s2(p) \/ AA2s2(p) \/ AA3e(p) \/ AA4e(p) \/ AA5(p) \/ AA8e(p)
+(* whole life cycle, protocol proper / with the environment *)
+PFullProtocolNext == PEstablishNext \/ PProtocolNext
+PFullNext == PEstablishNext \/ PNext
+PFullSpec == PFullInit /\ [][PFullNext]_psvars
 =============================================================================
